@@ -162,6 +162,16 @@ def harnesses(tier):
                               bounds=dict(N=n), stubs=["numpy/pandas -> symnp/sympd", "file -> VFS"] + (["qvalues.tdc -> fresh q-values constrained by the C01 formula (discharged by C01)"] if tdc == "spec" else []),
                               assumptions=["premise of the statement: >= 1 decoy and the lowest accepted target lies strictly above the decoy median",
                                            "scores finite reals; 0 < eval_fdr <= 1", "higher scores are better (brew always calibrates with desc=True)"]))
+    from . import brewlib
+    B = brewlib.setup()[0]
+    pre = [((True, True), 3), ((True, False), 3), ((False, True), 3)] if tier == "quick" else \
+          [((True, True), 4), ((True, False), 4), ((False, True), 4), ((False, False), 3), ((True, False, True), 4), ((False, True, True), 4), ((True, True, False), 4)]
+    for dfm, n in pre:
+        cfg = dict(n=n, df=list(dfm), sym_chunks=True)
+        hs.append(Harness("brew_pretrained[n=%d,decision_function=%s]" % (n, "".join("y" if b else "n" for b in dfm)), cfg, sym_brew_pretrained, real="brew_pretrained",
+                          functions=[B.brew, B._predict, B.predict_fold, D.OnDiskPsmDataset._split], bounds=dict(N=n, folds=len(dfm), prediction_chunk="1..N+1"),
+                          stubs=["as C02: recording models with fresh-symbol scores; calibrate_scores -> recorder (kernel decided above)", "crc32 -> uninterpreted injective hash"],
+                          assumptions=["models supplied already trained (brew(models=[...])), one per fold; fold k's estimator has a decision_function iff stated"], sample_rate=0.02))
     return hs
 
 
@@ -216,3 +226,142 @@ def real_calibrate(cfg, inp):
 
 
 REAL = {"calibrate": real_calibrate}
+
+
+# ------------------------------------------------------------------ per-fold application --
+def sym_brew_pretrained(ctx, cfg):
+    """The per-fold application of the calibration inside the real brew()/_predict when the models
+    are supplied already trained (brew(models=...) - the way models of an earlier run are fed back)
+    and need not all be of one kind: cfg['df'][k] says whether the estimator of fold k+1 has a
+    decision_function (calibrated) or not (probabilities are returned as they are).
+    calibrate_scores is a recording stub (its numeric kernel is decided by the harnesses above)."""
+    import z3
+    from symx import symnp, vfs, stubs, core
+    from symx.core import SNum, PathOutcome, Unsupported
+    from . import brewlib
+    B, D, P, U, T, Q = brewlib.setup()
+    vfs.reset()
+    brewlib.HASHES.clear()
+    N, dfm = cfg["n"], list(cfg["df"])
+    folds = len(dfm)
+    ds, s = brewlib.make_dataset(ctx, D, N, 0, 2, "pm1")
+    B.CHUNK_SIZE_ROWS_PREDICTION = int(ctx.fresh_int("chunk_prediction", 1, N + 1)) if cfg.get("sym_chunks") else N + 1
+    B.CHUNK_SIZE_READ_ALL_DATA = N + 1
+    stubs.MODE[0] = "submission"
+    gen = symnp.Generator("identity")
+    log = {}
+    models = []
+    for k in range(folds):
+        m = brewlib.StubModel(log, decision_function=dfm[k], override=True)
+        m.is_trained, m.fold, m.uid = True, k + 1, k + 1
+        models.append(m)
+    cal = brewlib.CalRecorder()
+    B.calibrate_scores = cal
+    B.update_labels = lambda fn, sc, tc, fdr: symnp.SArray([0] * len(sc), symnp.float64)
+    split_rec = []
+    real_split = D.OnDiskPsmDataset._split
+
+    def rec_split(self, folds_, rng_):
+        r = real_split(self, folds_, rng_)
+        split_rec.append([list(int(i) for i in a.items) for a in r])
+        return r
+    D.OnDiskPsmDataset._split = rec_split
+    inputs = dict(files=brewlib.dataset_inputs([s]), df=dfm, chunk_prediction=B.CHUNK_SIZE_ROWS_PREDICTION,
+                  hashes=[[brewlib.s_crc32(core.SKey((SNum(s["scan"][i]), SNum(s["mass"][i])))) for i in range(N)]])
+    try:
+        _, _, scores, _ = B.brew([ds], model=models, test_fdr=SNum(z3.Real("test_fdr")), folds=folds, max_workers=1, rng=gen)
+    except Unsupported:
+        raise
+    except Exception as ex:
+        return PathOutcome([], inputs, None, "exc", note=type(ex).__name__ + ":" + str(ex)[:80])
+    finally:
+        D.OnDiskPsmDataset._split = real_split
+    fl = split_rec[0]
+    foldof = {i: k for k, f in enumerate(fl) for i in f}
+    sc = scores[0]
+    props = [("score_count", z3.BoolVal(len(sc) == N))]
+    want_calls = [k for k in range(folds) if dfm[k] and fl[k]]
+    props.append(("one_calibration_per_nonempty_fold_with_a_decision_function: %d calls for folds %s" % (len(cal.calls), want_calls), z3.BoolVal(len(cal.calls) == len(want_calls))))
+    for r in range(N):
+        k = foldof[r]
+        raw = z3.Real("score_m%s_f%s_r%d" % (k + 1, 0, r))
+        term = core._z(sc.items[r])
+        if not dfm[k]:
+            props.append(("row%d_of_uncalibrated_fold%d_keeps_its_raw_score" % (r, k + 1), term == raw))
+            continue
+        ok = []
+        for (ins, tg, outs) in cal.calls:
+            rows_k = sorted(i for i in range(N) if foldof[i] == k)
+            same_fold = {core._z(a).get_id() for a in ins} == {z3.Real("score_m%s_f%s_r%d" % (k + 1, 0, i)).get_id() for i in rows_k} and len(ins) == len(tg)
+            if not same_fold:
+                continue
+            for a, b, o in zip(ins, tg, outs):
+                ok.append(z3.And(core._z(o) == term, core._z(a) == raw, core.zbool(b) == s["lab"][r]))
+        props.append(("row%d_calibrated_within_fold%d_against_its_own_label" % (r, k + 1), z3.Or(ok) if ok else z3.BoolVal(False)))
+    prefer = [s["lab"][a] != s["lab"][b] for a in range(N) for b in range(a + 1, N) if foldof[a] != foldof[b]]
+    return PathOutcome(props, inputs, None, prefer=prefer)
+
+
+def real_brew_pretrained(cfg, inp):
+    import tempfile
+    import numpy as np
+    import mokapot
+    from . import brewlib, c02
+    B = __import__("sys").modules["mokapot.brew"]
+    dfm = [bool(x) for x in inp["df"]]
+    folds = len(dfm)
+    rows = inp["files"][0]
+    scan, mass = c02.realize_keys(rows, inp["hashes"][0])
+    rows = dict(rows, scan=scan, mass=mass)
+    labels = [bool(x) for x in rows["labels"]]
+    log = {}
+    calls = []
+    with tempfile.TemporaryDirectory(prefix="verif_c11_") as d:
+        p, df = brewlib.real_dataset(None, d, 0, rows, "pm1")
+        try:
+            ds = mokapot.read_pin(p, max_workers=1)[0]
+        except Exception as ex:
+            return dict(exception=repr(ex), violation="read_pin raised %r" % (ex,))
+        models = []
+        for k in range(folds):
+            m = c02._RealModel(log, dfm[k])
+            m.is_trained, m.fold, m.override = True, k + 1, True
+            models.append(m)
+        old = (B.CHUNK_SIZE_ROWS_PREDICTION, B.calibrate_scores)
+        B.CHUNK_SIZE_ROWS_PREDICTION = int(inp["chunk_prediction"])
+
+        def rec_cal(scores, targets, eval_fdr, desc=True):
+            calls.append(([float(x) for x in scores], [bool(x) for x in targets]))
+            if len(scores) != len(targets):
+                raise ValueError("'scores' and 'target' must be the same length")  # what the real kernel answers
+            return np.asarray(scores, dtype=float) + 0.5  # marks a calibrated value
+
+        B.calibrate_scores = rec_cal
+        try:
+            _, _, scores, _ = mokapot.brew([ds], model=models, test_fdr=1.0, folds=folds, max_workers=1, rng=c02.scripted_rng([]))
+        except Exception as ex:
+            return dict(exception=repr(ex), violation="brew with pretrained models (decision_function per fold: %s) raised %r after calibration calls %s" % (dfm, ex, calls))
+        finally:
+            B.CHUNK_SIZE_ROWS_PREDICTION, B.calibrate_scores = old
+    pred = {}
+    for fold, rr in log.get("predicts", []):
+        for (f, r) in rr:
+            pred[r] = fold
+    raw = lambda r: 1000.0 * pred[r] + r + 0.25 + (500.0 if labels[r] else 0.0)
+    for (ss, tt) in calls:
+        # identify rows from the scripted scores: score = 1000*fold + r + .25 (+500 for targets)
+        for x, t in zip(ss, tt):
+            r = int((x - 0.25) % 500 + 1e-6)
+            if r >= len(labels) or abs(raw(r) - x) > 1e-6:
+                return dict(violation="calibration received a score %r that no model produced" % (x,))
+            if labels[r] != t:
+                return dict(violation="decision_function per fold %s: fold %d was calibrated with the labels of other PSMs (row %d is %s, the calibration was told %s); calls %s"
+                            % (dfm, pred[r], r, "a target" if labels[r] else "a decoy", "target" if t else "decoy", calls))
+    for r in range(len(labels)):
+        exp = raw(r) + (0.5 if dfm[pred[r] - 1] else 0.0)
+        if abs(float(scores[0][r]) - exp) > 1e-6:
+            return dict(violation="row %d (fold %d, decision_function=%s): returned %r, expected %r" % (r, pred[r], dfm[pred[r] - 1], float(scores[0][r]), exp))
+    return dict(outputs=None, violation=None)
+
+
+REAL["brew_pretrained"] = real_brew_pretrained
